@@ -112,17 +112,15 @@ Proof.
   - destruct t as [T|]; [|discriminate U].
     pose proof (uword_of_u256 T x U (val_ok_int _ _ Hx)) as Bx. pose proof (uword_of_u256 T y U (val_ok_int _ _ Hy)) as By.
     unfold cmp_op. rewrite U. rewrite (wrap_small x), (wrap_small y) by lia.
-    destruct op; cbn [ev2 cmp_fun]; unfold w_gt, w_lt, w_iszero, w_eq, b2z;
-      repeat match goal with |- context[if ?c then _ else _] => destruct c eqn:? end; lia.
+    destruct op; cbn [ev2 cmp_fun]; unfold w_gt, w_lt, w_eq; rewrite ?w_iszero_b2z; f_equal; lia.
   - assert (sword x /\ sword y) as [Sx Sy].
     { destruct t as [T|].
       - cbn in Ht. destruct (int_ok_ty_ok T Ht) as (_ & Hk & _).
         split; eapply sword_of_range; eauto; apply val_ok_int; auto.
       - destruct (val_ok_bool _ Hx) as [-> | ->]; destruct (val_ok_bool _ Hy) as [-> | ->]; unfold sword; split; wl. }
     unfold cmp_op. rewrite U.
-    destruct op; cbn [ev2 cmp_fun]; unfold w_sgt, w_slt, w_iszero;
-      rewrite ?(ts_wrap x Sx), ?(ts_wrap y Sy); try (rewrite (w_eq_wrap y x Sy Sx));
-      unfold b2z; repeat match goal with |- context[if ?c then _ else _] => destruct c eqn:? end; lia.
+    destruct op; cbn [ev2 cmp_fun]; unfold w_sgt, w_slt;
+      rewrite ?(ts_wrap x Sx), ?(ts_wrap y Sy), ?(w_eq_wrap y x Sy Sx), ?w_iszero_b2z; f_equal; lia.
 Qed.
 
 (* bitwise operations keep unsigned values of k bytes in range *)
@@ -183,7 +181,7 @@ Lemma res_y : reserved "y" = true. Proof. reflexivity. Qed.
 Lemma res_c : reserved "clamp_arg" = true. Proof. reflexivity. Qed.
 
 (* an int literal is its own (inlined) operand *)
-Lemma lit_case e T : is_int_lit e = true -> exists T' v, e = XInt T' v.
+Lemma lit_case e (T : nty) : is_int_lit e = true -> exists T' v, e = XInt T' v.
 Proof. destruct e; try discriminate. eauto. Qed.
 
 Lemma tmpl_exact op T e ea eb i1 i2 x y :
@@ -198,6 +196,8 @@ Proof.
   - apply safe_div_exact; assumption.
   - apply safe_mod_exact; assumption.
 Qed.
+
+Local Opaque int_ok sty_ok.
 
 Theorem compile_correct : forall e rho, wt e = true -> env_ok rho e = true -> correct rho e.
 Proof.
@@ -221,6 +221,8 @@ Proof.
     rewrite Ta in Ga. rewrite Tb in Gb.
     assert (Ht : int_ok T = true) by assumption.
     destruct (int_ok_ty_ok T Ht) as (_ & _ & Hd).
+    assert (Cbx : forall w p, tenv p -> leval (("x", w) :: p ++ lenv_of rho) (compile b) = enc_out (seval rho b))
+      by (intros w p Hp'; exact (Cb (("x", w) :: p) (tenv_cons _ _ _ res_x Hp'))).
     assert (IA : ia = true -> is_int_lit a = true) by (intros ->; match goal with H : (negb true || _) = true |- _ => exact H end).
     assert (IB : ib = true -> is_int_lit b = true) by (intros ->; match goal with H : (negb true || _) = true |- _ => exact H end).
     destruct (seval rho a) as [x| | |] eqn:Sa; try contradiction.
@@ -233,7 +235,7 @@ Proof.
       destruct ib. { destruct (lit_case b T (IB eq_refl)) as (T' & v' & ->). discriminate Sb. }
       destruct ia; cbn [m_cache leval].
       - rewrite (Cb pre Hp). reflexivity.
-      - rewrite (Ca pre Hp). cbn [enc_out]. rewrite (Cb (("x", wrap x) :: pre) (tenv_cons _ _ _ res_x Hp)). reflexivity. }
+      - rewrite (Ca pre Hp). cbn [enc_out]. rewrite (Cbx _ pre Hp). reflexivity. }
     pose proof (val_ok_int _ _ Ga) as Rx. pose proof (val_ok_int _ _ Gb) as Ry.
     split.
     { pose proof (arith_spec_good T (aop_of op) x y Hd ltac:(destruct op; discriminate)) as G.
@@ -249,7 +251,7 @@ Proof.
     + destruct (lit_case b T (IB eq_refl)) as (Tb' & vb & ->). cbn [seval] in Sb. inversion Sb; subst. cbn [compile].
       rewrite (Ca pre Hp). cbn [enc_out].
       apply tmpl_exact; auto using opd_lit. apply opd_bound_x. reflexivity.
-    + rewrite (Ca pre Hp). cbn [enc_out]. rewrite (Cb (("x", wrap x) :: pre) (tenv_cons _ _ _ res_x Hp)). cbn [enc_out].
+    + rewrite (Ca pre Hp). cbn [enc_out]. rewrite (Cbx _ pre Hp). cbn [enc_out].
       apply tmpl_exact; auto.
       * apply opd_under_y; [apply opd_bound_x; reflexivity | left; reflexivity].
       * apply opd_bound_y. reflexivity.
